@@ -16,6 +16,7 @@ from torch_geometric.data import Data, Batch
 from fgutils.torch.utils import its_to_torch, its_from_torch, get_adjacency_matrix, prune
 from fgutils.torch.graph import node_induced_subgraph, edge_induced_subgraph
 from fgutils.its import ITS
+from fgutils.torch.ITSDataset import ITSDataset
 
 ID = "C18"
 PROPS = "Props/C18.v"
@@ -27,8 +28,10 @@ CHUNK = 150
 CORRESPONDENCE = ("Model.Torch.{its_to_torch1,its_to_torch_list,its_from_torch,node_induced_subgraph,"
                   "edge_induced_subgraph,get_adjacency_matrix,prune} ~ fgutils.torch.utils.{its_to_torch,"
                   "its_from_torch,get_adjacency_matrix,prune}, fgutils.torch.graph.{node_induced_subgraph,"
-                  "edge_induced_subgraph}; exact tensors / exact graphs")
-RULE = ("operation in {to_torch, roundtrip, batch (1-4 members), from_torch on raw tensors/raw batches, "
+                  "edge_induced_subgraph}; exact tensors / exact graphs; fgutils.torch.ITSDataset with default "
+                  "transforms ~ map its_to_torch1 (other ITSDataset options: Python-side invariants only)")
+RULE = ("operation in {to_torch, roundtrip, batch (1-5 members of pairwise different sizes, >= 3 members in most "
+        "cases), dataset (ITSDataset of 1-4 graphs, some wrapped in ITS), from_torch on raw tensors/raw batches, "
         "node_induced, edge_induced, prune (with/without edge_attr), adjacency}. ITS graphs: gens.rand_mol/"
         "rand_forest (2-10 nodes, rings) with tuple labels (g,h), g,h in {0,1,1.5,2,3}, symbols from all 118 "
         "elements (multi-letter included), ids renamed by gens.reid (contiguous/offset/sparse/negative/shuffled "
@@ -37,7 +40,11 @@ RULE = ("operation in {to_torch, roundtrip, batch (1-4 members), from_torch on r
         "form of such graphs (70%) or on raw random tensors (unsorted, one-directional, repeated columns); node "
         "subsets in arbitrary order, usually inducing >= 1 edge; edge (column) subsets in arbitrary order; start "
         "sets of 0-3 positions and radii 0..6 with all float32 walk counts < 2^24. Batches also run with custom "
-        "feature transforms on the Python side (batch = member-wise with the same transforms). non-trivial = "
+        "feature transforms on the Python side (batch = member-wise with the same transforms; both, node-only, "
+        "edge-only), and every clean batch / dataset case builds ITSDataset for all 8 combinations of node transform "
+        "given or not x edge transform given or not x targets given or not (ids in every second one, plus "
+        "pre_transform/transform callbacks) and compares every stored and returned sample with "
+        "its_to_torch(member, same transforms) tensor for tensor. non-trivial = "
         "the operation succeeded on an input with >= 1 edge (for subsets: >= 1 edge kept; prune: >= 1 node "
         "kept and >= 1 dropped or radius >= 1); distinct = distinct (operation, input, parameters)")
 TRUSTED = [
@@ -54,7 +61,7 @@ ASSUMPTIONS = [
     "code are exact; the model counts walks in Z (the generator respects the bound)",
     "tensor indices are non-negative (torch wraps negative indices; the model returns Unmodelled for them) and "
     "edge feature rows decoded by its_from_torch have width 2",
-    "batches have 1..4 members, each with >= 1 edge (PyG's concatenation of an empty 1-d edge tensor is not modelled)",
+    "batches have 1..5 members, each with >= 1 edge (PyG's concatenation of an empty 1-d edge tensor is not modelled)",
 ]
 
 SYMS = ("H He Li Be B C N O F Ne Na Mg Al Si P S Cl Ar K Ca Sc Ti V Cr Mn Fe Co Ni Cu Zn Ga Ge As Se Br Kr Rb Sr Y "
@@ -65,8 +72,8 @@ COMMON = ["C", "C", "C", "N", "O", "H", "Cl", "Br", "Si", "S", "P", "F", "Na", "
 ORD = [0, 1, 1, 1, 2, 2, 3, 1.5, 1.5]
 ERRS = ("KeyError", "TypeError", "AssertionError", "IndexError", "AttributeError", "RuntimeError")
 EXC = (KeyError, TypeError, AssertionError, IndexError, AttributeError, RuntimeError)
-OPS = ["to_torch", "roundtrip", "roundtrip", "batch", "batch", "from_torch", "node_induced", "node_induced",
-       "edge_induced", "edge_induced", "prune", "prune", "prune", "adjacency"]
+OPS = ["to_torch", "roundtrip", "roundtrip", "batch", "batch", "batch", "dataset", "from_torch", "node_induced",
+       "node_induced", "edge_induced", "edge_induced", "prune", "prune", "prune", "adjacency"]
 
 
 # ------------------------------------------------------------------ generators
@@ -161,18 +168,23 @@ def generate(seed, tier, ncases=None):
         if op in ("to_torch", "roundtrip"):
             g, scheme, kind = rand_its(rng, 2, nmax, dirty=0.12)
             c.update(graph=g, scheme=scheme, kind=kind, wrap=rng.random() < 0.25)
-        elif op == "batch":
-            k = rng.choice([1, 2, 2, 3, 3, 4])
+        elif op in ("batch", "dataset"):
+            # >= 3 members in ~70% of the cases, pairwise different member sizes (an offset error in the
+            # batch decoder may only show from the third member on, and only if sizes differ)
+            k = rng.choice([1, 2, 3, 3, 3, 4, 4, 5] if op == "batch" else [1, 2, 3, 3, 4])
+            sizes = rng.sample(range(2, 10), k)
             gs, kinds, schemes = [], [], []
-            for _ in range(k):
-                g, scheme, kind = rand_its(rng, 2, rng.choice([3, 5, 8]), dirty=0.03)
+            for sz in sizes:
+                g, scheme, kind = rand_its(rng, sz, sz, dirty=0.03 if op == "batch" else 0.0)
                 while g.number_of_edges() == 0:
-                    g, scheme, kind = rand_its(rng, 2, 4, dirty=0.0)
+                    g, scheme, kind = rand_its(rng, max(sz, 3), max(sz, 3), dirty=0.0, forest=False)
                 gs.append(g)
                 kinds.append(kind)
                 schemes.append(scheme)
             c.update(graphs=gs, scheme="+".join(schemes),
                      kind="clean" if all(x == "clean" for x in kinds) else "+".join(kinds))
+            if op == "dataset":
+                c["wrap"] = [rng.random() < 0.3 for _ in gs]
         elif op == "from_torch":
             k = rng.choice([0, 0, 1, 2, 3])
             c.update(tensors=[rand_raw(rng) for _ in range(max(k, 1))], batched=k > 0)
@@ -247,6 +259,13 @@ def corpus():
     h = _g([(7, "N"), (-2, "Mg"), (40, "C"), (3, "Og")], [(40, 7, (1.5, 1)), (3, -2, (2, 1)), (-2, 40, (0, 1)), (3, 7, (1, 1))])
     yield {"op": "roundtrip", "graph": h, "scheme": "corpus", "kind": "clean", "wrap": False}
     yield {"op": "batch", "graphs": [gens.copy_exact(g), gens.copy_exact(h), gens.copy_exact(g)], "scheme": "corpus", "kind": "clean"}
+    g5 = _g([(10, "C"), (11, "C"), (12, "N"), (13, "O"), (14, "H")],
+            [(10, 11, (1, 1)), (11, 12, (1, 2)), (12, 13, (2, 1)), (13, 14, (1, 0)), (14, 10, (0, 1))])
+    g2 = _g([(5, "Br"), (3, "Si")], [(3, 5, (1, 1.5))])
+    yield {"op": "batch", "graphs": [gens.copy_exact(g2), gens.copy_exact(g5), gens.copy_exact(g), gens.copy_exact(h)],
+           "scheme": "corpus", "kind": "clean"}
+    yield {"op": "dataset", "graphs": [gens.copy_exact(g5), gens.copy_exact(g2), gens.copy_exact(h)],
+           "scheme": "corpus", "kind": "clean", "wrap": [False, True, False]}
     # the unit tests' samples
     ring = {"x": [[6]] * 4, "ei": [[0, 1], [1, 2], [2, 3], [3, 0], [1, 0], [2, 1], [3, 2], [0, 3]],
             "ea": [[0, 1], [1, 0], [0, 1], [1, 0]] * 2, "batch": None}
@@ -364,6 +383,88 @@ def custom_et(d):
     return [h, g, g + h]
 
 
+def _tag_pre(d):
+    d.pre_tag = torch.tensor(1)
+    return d
+
+
+def _tag_tr(d):
+    d = d.clone()
+    d.tr_tag = torch.tensor(2)
+    return d
+
+
+def dataset_invariants(graphs, wrap=None):
+    """ITSDataset stores / returns, per member, exactly its_to_torch(member, same transforms) -- for every
+    combination of node transform given or not x edge transform given or not x targets given or not (ids given
+    in every second combination), tensor for tensor (x, edge_index, edge_attr; y and id where applicable);
+    pre_transform is applied once at construction and transform on access."""
+    msgs = []
+    k = len(graphs)
+    wrap = wrap or [False] * k
+    ys = [(7 * i + 3) % 5 for i in range(k)]
+    ids = [100 + 3 * i for i in range(k)]
+
+    def members():
+        out = []
+        for g, w in zip(graphs, wrap):
+            h = gens.copy_exact(g)
+            out.append(ITS(h) if w else h)
+        return out
+
+    combo = 0
+    for nt in (None, custom_nt):
+        for et in (None, custom_et):
+            for y in (None, ys):
+                combo += 1
+                use_ids = ids if combo % 2 == 0 else None
+                tag = "ITSDataset(node_transform=%s, edge_transform=%s, y=%s, ids=%s)" % (
+                    "custom" if nt else "None", "custom" if et else "None", "given" if y else "None",
+                    "given" if use_ids else "None")
+                try:
+                    ds = ITSDataset(members(), y=y, ids=use_ids, node_feature_transform=nt, edge_feature_transform=et)
+                    refs = [its_to_torch(m, node_feature_transform=nt, edge_feature_transform=et) for m in members()]
+                    if len(ds) != k or len(ds.data) != k:
+                        msgs.append("%s: %d samples for %d graphs" % (tag, len(ds), k))
+                        continue
+                    for i in range(k):
+                        for where, smp in (("returns", ds[i]), ("stores", ds.data[i])):
+                            for f in ("x", "edge_index", "edge_attr"):
+                                a, b = getattr(smp, f), getattr(refs[i], f)
+                                if a is None or a.dtype != b.dtype or not torch.equal(a, b):
+                                    msgs.append("%s %s a sample whose %s differs from its_to_torch(member %d, same transforms)"
+                                                % (tag, where, f, i))
+                            if nt is not None and smp.x.size(1) != 2:
+                                msgs.append("%s %s node features without the custom node transform" % (tag, where))
+                            if et is not None and smp.edge_attr.size(1) != 3:
+                                msgs.append("%s %s edge features without the custom edge transform" % (tag, where))
+                            if y is None:
+                                if smp.y is not None:
+                                    msgs.append("%s %s a target although none was given" % (tag, where))
+                            elif smp.y is None or not torch.equal(smp.y, torch.tensor(ys[i])):
+                                msgs.append("%s %s target %r for member %d instead of %d" % (tag, where, smp.y, i, ys[i]))
+                            if use_ids is None:
+                                if "id" in smp:
+                                    msgs.append("%s %s an id although none was given" % (tag, where))
+                            elif "id" not in smp or not torch.equal(smp.id, torch.tensor(ids[i])):
+                                msgs.append("%s %s a wrong id for member %d" % (tag, where, i))
+                except Exception as e:   # noqa
+                    msgs.append("%s raised %s: %s" % (tag, type(e).__name__, e))
+    try:
+        ds = ITSDataset(members(), pre_transform=_tag_pre, transform=_tag_tr)
+        refs = [its_to_torch(m) for m in members()]
+        for i in range(k):
+            smp, st = ds[i], ds.data[i]
+            if "pre_tag" not in st or "tr_tag" in st or "pre_tag" not in smp or "tr_tag" not in smp:
+                msgs.append("ITSDataset: pre_transform / transform not applied at construction / on access (member %d)" % i)
+            for f in ("x", "edge_index", "edge_attr"):
+                if not torch.equal(getattr(smp, f), getattr(refs[i], f)):
+                    msgs.append("ITSDataset with callbacks returns a sample whose %s differs from its_to_torch(member %d)" % (f, i))
+    except Exception as e:   # noqa
+        msgs.append("ITSDataset with pre_transform/transform raised %s: %s" % (type(e).__name__, e))
+    return msgs[:6]
+
+
 def run_impl(c):
     op = c["op"]
     inv = []
@@ -384,6 +485,27 @@ def run_impl(c):
             return out
         r2 = guard(lambda: its_from_torch(r[1]))
         out["res"] = r2
+        return out
+    if op == "dataset":
+        gs = [gens.copy_exact(g) for g in c["graphs"]]
+        wrap = c.get("wrap") or [False] * len(gs)
+        r = guard(lambda: ITSDataset([ITS(g) if w else g for g, w in zip(gs, wrap)]))
+        for g, g0 in zip(gs, c["graphs"]):
+            for n in g.nodes:
+                if "aam" not in g0.nodes[n]:
+                    g.nodes[n].pop("aam", None)
+        if any(not gens.graphs_identical(a, b) for a, b in zip(gs, c["graphs"])):
+            inv.append("ITSDataset mutated a member of the list")
+        if r[0] != "ok":
+            out["res"] = r
+            out["members"] = None
+            return out
+        ds = r[1]
+        out["members"] = [t_lists(ds[i]) for i in range(len(ds))]
+        out["res"] = ("ok", out["members"])
+        if len(ds) != len(gs):
+            inv.append("ITSDataset has %d samples for %d graphs" % (len(ds), len(gs)))
+        inv.extend(dataset_invariants(c["graphs"], wrap))
         return out
     if op == "batch":
         gs = [gens.copy_exact(g) for g in c["graphs"]]
@@ -408,8 +530,17 @@ def run_impl(c):
                         inv.append("batch with custom transforms differs from member-wise conversion in %s" % f)
                 if bt.x.size(1) != 2 or bt.edge_attr.size(1) != 3:
                     inv.append("custom transforms were not applied to the list input")
+                # one transform only (the other one default)
+                for kw in ({"node_feature_transform": custom_nt}, {"edge_feature_transform": custom_et}):
+                    b1 = its_to_torch(gs, **kw)
+                    r1 = Batch.from_data_list([its_to_torch(g, **kw) for g in gs])
+                    for f in ("x", "edge_index", "edge_attr", "batch"):
+                        if not torch.equal(getattr(b1, f), getattr(r1, f)):
+                            inv.append("batch with only %s differs from member-wise conversion in %s" % (list(kw)[0], f))
             except Exception as e:   # noqa
                 inv.append("custom-transform batch raised %s: %s" % (type(e).__name__, e))
+            # the same clause through the ITSDataset entry point
+            inv.extend(dataset_invariants(c["graphs"]))
         return out
     if op == "from_torch":
         ds = [to_tensor_data(t) for t in c["tensors"]]
@@ -538,6 +669,14 @@ def coq_case(c, out):
         checks["agree"] = "res_eqb tdata_eqb (%s) $T && res_eqb its_out_eqb (%s) $out" % (m1, m2)
         checks["spec"] = "batch_okb $gs $ms $T $out"
         diag = [m1, m2]
+    elif op == "dataset":
+        if out["res"][0] != "ok":
+            raise ct.Unrepresentable("ITSDataset raised %s on convertible graphs" % (out["res"],))
+        defs["gs"] = "(%s : list graph)" % ct.lst([ct.graph(g) for g in c["graphs"]])
+        defs["ms"] = "(%s : list tdata)" % ct.lst([tdata_term(m) for m in out["members"]])
+        checks["agree"] = "all2b (fun g m => res_eqb tdata_eqb (its_to_torch1 g) (Ok m)) $gs $ms"
+        checks["spec"] = "all2b to_torch_tensor_okb $gs $ms"
+        diag = ["mapM its_to_torch1 $gs"]
     elif op == "from_torch":
         defs["T"] = res_term(out["T"], "tdata", tdata_term)
         defs["out"] = res_term(out["res"], "its_out", its_out_term)
@@ -658,8 +797,10 @@ def classes(c, out):
             yield "scheme=" + s
     if "kind" in c:
         yield "kind=" + ("clean" if c["kind"] == "clean" else "dirty")
-    if c["op"] == "batch":
+    if c["op"] in ("batch", "dataset"):
         yield "members=%d" % len(c["graphs"])
+        if len(c["graphs"]) >= 3:
+            yield "members>=3"
     if c["op"] == "prune":
         yield "radius=%d" % min(c["radius"], 4)
         yield "starts=%d" % len(c["start"])
